@@ -72,12 +72,6 @@ Proof.
 Qed.
 
 (** * machine steps shared by the loops *)
-Lemma arith_U w x : W w -> 0 <= x < 2 ^ w -> arith (U w) x = Ok x.
-Proof.
-  intros HW Hx. apply arith_ok; [exact HW|].
-  apply in_ty_range. unfold imin, imax, umax. cbn [U sgn bits]. lia.
-Qed.
-
 Lemma incr_i32 r : 0 <= r <= 1000 -> arith_in i32 (r + 1) = Ok (r + 1).
 Proof. intros Hr. apply arith_in_signed; [reflexivity | consts; lia]. Qed.
 
@@ -259,15 +253,44 @@ Proof.
       apply wu_small; [lia | apply pow2_range; lia].
 Qed.
 
+(* above the standard's domain (no representable power of two >= x) the code shifts by the full width of the
+   (promoted) operand: undefined behaviour, never a wrong value *)
+Lemma bit_ceil_out_of_domain w x : W w -> 2 ^ (w - 1) < x < 2 ^ w -> bit_ceil_m w x = UB BadShift.
+Proof.
+  intros HW Hx. pose proof (W_pos w HW) as Hp. unfold bit_ceil_m.
+  assert (Ph : 0 < 2 ^ (w - 1)) by (apply pow2_pos; lia).
+  replace (x <=? 1) with false by lia.
+  assert (Hl : Z.log2 (x - 1) = w - 1).
+  { apply Z.log2_unique; [lia|]. replace (Z.succ (w - 1)) with w by lia. lia. }
+  assert (Hbw : bit_width_m w (x - 1) = Ok w).
+  { rewrite bit_width_ok by (auto; lia). unfold bit_width_spec. replace (x - 1 =? 0) with false by lia.
+    rewrite Hl. f_equal. lia. }
+  destruct (Z.leb_spec 32 w) as [B|S].
+  - rewrite arith_U by (auto; lia). cbn [rbind]. rewrite Hbw. cbn [rbind].
+    unfold shl. assert (Hb : bits (promote (U w)) = w).
+    { destruct HW as [ -> | [ -> | [ -> | -> ] ] ]; try lia; reflexivity. }
+    rewrite Hb. replace ((0 <=? w) && (w <? w)) with false by lia. reflexivity.
+  - assert (Hw : w = 8 \/ w = 16) by (destruct HW as [ -> | [ -> | [ -> | -> ] ] ]; lia).
+    assert (E1 : wu w (wu 32 (x - 1)) = x - 1).
+    { assert (Hx32 : 0 <= x - 1 < 2 ^ 32) by (pose proof (pow2_le w 32 ltac:(lia)); lia).
+      rewrite (wu_small 32) by lia. apply wu_small; lia. }
+    rewrite E1, Hbw. cbn [rbind].
+    rewrite arith_in_signed by (try reflexivity; consts; lia). cbn [rbind].
+    replace (w + (32 - w)) with 32 by lia. reflexivity.
+Qed.
+
 (* all of the above, as Properties.v states them *)
 Lemma count_all w : W w -> forall x, 0 <= x < 2 ^ w ->
   countl_zero_m w x = Ok (countl_zero_spec w x) /\ countl_one_m w x = Ok (countl_one_spec w x)
   /\ countr_zero_m w x = Ok (countr_zero_spec w x) /\ countr_one_m w x = Ok (countr_one_spec w x)
   /\ bit_width_m w x = Ok (bit_width_spec x) /\ bit_floor_m w x = Ok (bit_floor_spec x)
-  /\ (bit_ceil_dom w x = true -> bit_ceil_m w x = Ok (bit_ceil_spec x)).
+  /\ (bit_ceil_dom w x = true -> bit_ceil_m w x = Ok (bit_ceil_spec x))
+  /\ (bit_ceil_dom w x = false -> bit_ceil_m w x = UB BadShift).
 Proof.
   intros HW x Hx.
-  repeat split; [apply countl_zero_ok | apply countl_one_ok | apply countr_zero_ok | apply countr_one_ok
-                 | apply bit_width_ok | apply bit_floor_ok | ]; auto.
-  intros Hd. unfold bit_ceil_dom in Hd. apply bit_ceil_ok; [assumption | lia].
+  split; [now apply countl_zero_ok|]. split; [now apply countl_one_ok|]. split; [now apply countr_zero_ok|].
+  split; [now apply countr_one_ok|]. split; [now apply bit_width_ok|]. split; [now apply bit_floor_ok|].
+  unfold bit_ceil_dom. split; intros Hd.
+  - apply bit_ceil_ok; [assumption | lia].
+  - apply bit_ceil_out_of_domain; [assumption | lia].
 Qed.
